@@ -745,13 +745,21 @@ impl<'a> History<'a> {
 	/// (it knows the id from the S1 slate it was given). Paying it must not reveal the payer's key nor
 	/// destroy the pending send's private data.
 	pub fn op_hostile_invoice(&mut self, rng: &mut Rng) {
-		let cands: Vec<usize> = (0..self.flights.len()).filter(|i| { let f = &self.flights[*i]; !f.dead && f.kind != Kind::Invoice && !f.finalized && !f.cancelled_payer && f.payer != f.payee }).collect();
+		// the id reused is that of one of the victim's pending sends, or of an invoice the victim itself issued (and the
+		// counterparty has not paid yet)
+		let cands: Vec<usize> = (0..self.flights.len())
+			.filter(|i| {
+				let f = &self.flights[*i];
+				!f.dead && !f.finalized && f.payer != f.payee && ((f.kind != Kind::Invoice && !f.cancelled_payer) || (f.kind == Kind::Invoice && f.s2.is_none() && !f.cancelled_payee))
+			})
+			.collect();
 		if cands.is_empty() {
 			return;
 		}
 		let fi = *rng.pick(&cands);
 		let f = self.flights[fi].clone();
-		let (victim, peer) = (f.payer, f.payee);
+		let own_invoice = f.kind == Kind::Invoice;
+		let (victim, peer) = if own_invoice { (f.payee, f.payer) } else { (f.payer, f.payee) };
 		let inv = match self.w.wallets[peer].issue_invoice(IssueInvoiceTxArgs { amount: 50_000_000 + rng.below(500_000_000), ..Default::default() }) {
 			Ok(mut s) => {
 				let orig = s.id;
@@ -761,14 +769,15 @@ impl<'a> History<'a> {
 			}
 			Err(_) => return,
 		};
-		self.set_acct(victim, &f.payer_acct);
+		let vacct = if own_invoice { f.payee_acct.clone() } else { f.payer_acct.clone() };
+		self.set_acct(victim, &vacct);
 		let ctx_before = self.w.wallets[victim].context(&f.id).ok().map(|c| (c.sec_key.0, c.sec_nonce.0, c.input_ids.len(), c.output_ids.len()));
 		let args = InitTxArgs { amount: 0, minimum_confirmations: 1, num_change_outputs: 1, selection_strategy_is_use_all: false, ..Default::default() };
 		let r = self.w.wallets[victim].process_invoice(&inv, args);
 		match &r {
 			Ok(s2) => {
 				self.emitted.push((victim, "I2(hostile-id)".to_string(), serde_json::to_vec(s2).unwrap_or_default()));
-				self.check_offset_leak(victim, "I2(invoice-reusing-the-id-of-a-pending-send)", s2, Some(&inv.offset));
+				self.check_offset_leak(victim, if own_invoice { "I2(invoice-reusing-the-id-of-an-invoice-the-victim-issued)" } else { "I2(invoice-reusing-the-id-of-a-pending-send)" }, s2, Some(&inv.offset));
 				let ctx_after = self.w.wallets[victim].context(&f.id).ok().map(|c| (c.sec_key.0, c.sec_nonce.0, c.input_ids.len(), c.output_ids.len()));
 				if ctx_before.is_some() && ctx_after != ctx_before {
 					self.stat("hostile-invoice:accepted-and-replaced-the-pending-sends-context");
@@ -778,7 +787,7 @@ impl<'a> History<'a> {
 				let _ = self.w.wallets[victim].cancel(None, Some(f.id));
 				self.stat("op:hostile-invoice:accepted");
 			}
-			Err(e) => self.stat(&format!("op:hostile-invoice:refused:{}", err_kind(e))),
+			Err(e) => self.stat(&format!("op:hostile-invoice{}:refused:{}", if own_invoice { "(id of own invoice)" } else { "" }, err_kind(e))),
 		}
 		self.ev("process_invoice_tx(hostile: reuses pending send id)", json!({"slate": f.id.to_string(), "wallet": victim}), &format!("{:?}", r.as_ref().map(|_| ()).map_err(err_kind)));
 	}
